@@ -173,6 +173,28 @@ def _present(seq, rng):
     return out
 
 
+def present_ids(seq, rng):
+    """how a bunch of ids is handed to a bulk call: any iterable, in this order (one-shot iterators and
+    generators are iterables too; a dict's key view when the ids are distinct)"""
+    seq = list(seq)
+    r = rng.random()
+    if r < 0.45:
+        return seq
+    if r < 0.6:
+        return tuple(seq)
+    if r < 0.75:
+        return iter(seq)
+    if r < 0.9:
+        return (x for x in seq)
+    try:
+        d = dict.fromkeys(seq)
+        if len(d) == len(seq):
+            return d.keys()
+    except TypeError:
+        pass
+    return seq
+
+
 def begin_call():
     del _HANDED[:]
 
@@ -246,11 +268,12 @@ def call(H, op, g, rng=None):
                     arg = [N(it["id"]) for it in op["items"]]
                 else:
                     arg = [(N(it["id"]), A(it["a"], "n")) for it in op["items"]]
-                H.add_nodes_from(arg, **A(op["a"], "n"))
+                H.add_nodes_from(present_ids(arg, rng) if op["fmt"] == 1 else (arg if rng.random() < 0.6 else iter(arg)),
+                                 **A(op["a"], "n"))
             elif name == "remove_node":
                 H.remove_node(N(op["n"]), strong=op["b1"], remove_empty=op["b2"])
             elif name == "remove_nodes_from":
-                H.remove_nodes_from([N(x) for x in op["ns"]], strong=op["b1"], remove_empty=op["b2"])
+                H.remove_nodes_from(present_ids([N(x) for x in op["ns"]], rng), strong=op["b1"], remove_empty=op["b2"])
             elif name in ("set_node_attributes", "set_edge_attributes"):
                 tbl = "n" if name == "set_node_attributes" else "e"
                 L = N if tbl == "n" else E
@@ -278,7 +301,7 @@ def call(H, op, g, rng=None):
             elif name == "remove_edge":
                 H.remove_edge(E(op["e"]))
             elif name == "remove_edges_from":
-                H.remove_edges_from([E(x) for x in op["ns"]])
+                H.remove_edges_from(present_ids([E(x) for x in op["ns"]], rng))
             elif name == "add_node_to_edge":
                 H.add_node_to_edge(E(op["e"]), N(op["n"]))
             elif name == "remove_node_from_edge":
